@@ -101,6 +101,15 @@ func (m *certManager) init(hostKey ic.PrivKey) error {
 	// We want the certificate have been valid for at least one clockSkewAllowance
 	start = start.Add(-clockSkewAllowance)
 	startTime := getCurrentBucketStartTime(start, offset)
+	// Certificates are a deterministic function of the host key and the bucket, so
+	// that addresses survive restarts. Re-derive the previous bucket's certificate:
+	// rollConfig below makes it lastConfig, and its hash keeps being confirmed to
+	// dialers that learned our address during the previous certificate period.
+	prevStartTime := startTime.Add(-validityMinusTwoSkew)
+	m.currentConfig, err = newCertConfig(hostKey, prevStartTime, prevStartTime.Add(certValidity))
+	if err != nil {
+		return err
+	}
 	m.nextConfig, err = newCertConfig(hostKey, startTime, startTime.Add(certValidity))
 	if err != nil {
 		return err
